@@ -18,6 +18,7 @@ import itertools
 import json
 import random
 
+from bcheck import history
 from bcheck.common import Collector, args, run_sharded, call
 from bcheck.ref_url import Rec, build, parse, urlsplit_agrees, component_diff, Families
 
@@ -26,7 +27,7 @@ from ural.lru import url_to_lru, lru_to_url, lru_stems, serialize_lru, unseriali
 # ---------------------------------------------------------------------------------------------- grammar
 SCHEMES = ("http", "https")
 USERINFOS = (None, "u", "u:pw", ":pw", "u:", "u:p:w")
-HOSTS = ("a.com", "www.a.co.uk", "co.uk", "A.Com", "WWW.B.Co.UK", "x.blogspot.com", "a.frcom", "intranet", "a.com.", "WWW.B.Co.UK.",
+HOSTS = ("a.com", "www.a.co.uk", "co.uk", "A.Com", "WWW.B.Co.UK", "x.blogspot.com", "a.frcom", "intranet", "a.com.", "WWW.B.Co.UK.", "www.straße.de", "ελληνικός.gr",
          "localhost", "127.0.0.1", "[::1]", "[2001:4860:0:2001::68]", "[2001:db8::1]", "[fe80::a]")
 HOSTS_THOROUGH = HOSTS + ("b.ck", "xn--bcher-kva.de", "192.168.0.12", "[::ffff:1.2.3.4]", "[FE80::1]", "localhost.a.com")
 PORTS = (None, "80", "8080", "080", "0", "")   # the port is text: leading zeros, 0 and an empty port are kept as written
@@ -266,6 +267,8 @@ def main():
     a = args("C12")
     col = Collector("C12", a.tier, a.seed)
     fam = Families(keep=4)
+    if a.replay and history.replayed(a, col, "C12"):
+        return
     if a.replay:
         rp = json.load(open(a.replay))
         inp = rp["input"]
@@ -319,6 +322,7 @@ def main():
                 "SHAPES (userinfo kind, host kind, port?, path depth / inner empty segment / trailing slash / ':' / '@', query kind, fragment "
                 "kind, flag) other than the plain shape (no userinfo, 2-label lower-case name, no port, no query, no fragment, plain path)"
                 % (len(SCHEMES), len(USERINFOS), len(hosts), len(PORTS), npaths, depth, len(SEGS), len(QUERIES), len(FRAGMENTS), 16 * nrand))
+    history.run(col, "C12", a.tier == "quick")
     col.dump(a.out)
 
 
